@@ -168,6 +168,11 @@ func defaultValueForType(schemas ast.Schemas, typeDef ast.Type, importModule mod
 			return raw(referredPkg + "." + objectName + "." + enumName)
 		} else if found && referredObj.Type.IsDisjunction() {
 			return defaultValueForType(schemas, referredObj.Type, importModule, nil)
+		} else if found && !referredObj.Type.IsStruct() && !referredObj.Type.IsConcreteScalar() {
+			// the referred object is an alias (of a struct, of another alias, of a
+			// collection, of any, …): it is emitted as a `typing.TypeAlias` and
+			// can not be called. The default value is the one of the aliased type.
+			return defaultValueForType(schemas, referredObj.Type, importModule, defaultsOverrides)
 		}
 
 		var extraDefaults []string
